@@ -24,9 +24,20 @@ func ruleNUMSTATE1(c *Ctx) {
 		return
 	}
 	info := f.Info()
-	isDigitLoop := func(st ast.Stmt) bool {
+	var isDigitLoop func(st ast.Stmt) bool
+	isDigitLoop = func(st ast.Stmt) bool {
 		fs, ok := st.(*ast.ForStmt)
 		if !ok || fs.Cond == nil {
+			// the loop may have been moved into a private helper: `n += consumeDigits(b[n:])`
+			for _, call := range CallsIn(st) {
+				if h := p.InlineAny(f)(call); h != nil && h.Body() != nil {
+					for _, hs := range findAll[*ast.ForStmt](h.Body()) {
+						if isDigitLoop(hs) {
+							return true
+						}
+					}
+				}
+			}
 			return false
 		}
 		lo, hi := false, false
